@@ -362,6 +362,162 @@ func checkTemplateMeaning(res *hx.Result, r *hx.Rand, def []byte, fail func(clas
 	}
 }
 
+// checkSingleSteps: "for all target versions, stepwise or in one go": migrating through every registered version one call
+// at a time, with the same supply of UUIDs, is THE migration of the definition; the one-call result must be that tree
+func checkSingleSteps(res *hx.Result, src, direct []byte, seed int64, srcVersion, header string, fail func(class, detail string)) {
+	res.OracleChecks++
+	cur := src
+	var serr error
+	pan := guard(func() {
+		withUUIDs(seed, func(rg *recGen) {
+			for _, w := range append(registeredAbove(header), "") {
+				cur, serr = migrations.MigrateToVersion(cur, mustVersion(w), migrations.DefaultConfig)
+				if serr != nil {
+					return
+				}
+			}
+		})
+	})
+	if pan != "" {
+		fail("panic:"+pan, "panic while migrating a valid definition one version at a time")
+		return
+	}
+	if serr != nil {
+		fail("valid-definition-rejected:single-steps-from-"+srcVersion, "migrating one version at a time returned an error")
+		return
+	}
+	a, e1 := decodeGeneric(direct)
+	b, e2 := decodeGeneric(cur)
+	if e1 != nil || e2 != nil {
+		return
+	}
+	ab, _ := json.Marshal(a)
+	bb, _ := json.Marshal(b)
+	if string(ab) != string(bb) {
+		fail("one-go-differs-from-single-steps:from-"+srcVersion, "MigrateToLatest in one call gives "+firstDifference(a, b, "")+" -- not what migrating one registered version at a time gives")
+	}
+}
+
+// firstDifference: where two decoded trees differ first (path and both values, shortened)
+func firstDifference(a, b any, path string) string {
+	short := func(v any) string {
+		s, _ := json.Marshal(v)
+		if len(s) > 120 {
+			return string(s[:120]) + "..."
+		}
+		return string(s)
+	}
+	switch at := a.(type) {
+	case map[string]any:
+		bt, ok := b.(map[string]any)
+		if !ok {
+			break
+		}
+		keys := map[string]bool{}
+		for k := range at {
+			keys[k] = true
+		}
+		for k := range bt {
+			keys[k] = true
+		}
+		for _, k := range sortedKeys(func() map[string]any {
+			m := map[string]any{}
+			for k := range keys {
+				m[k] = nil
+			}
+			return m
+		}()) {
+			av, aok := at[k]
+			bv, bok := bt[k]
+			if aok != bok {
+				return fmt.Sprintf("%s.%s present only on one side (%s / %s)", path, k, short(av), short(bv))
+			}
+			x, _ := json.Marshal(av)
+			y, _ := json.Marshal(bv)
+			if string(x) != string(y) {
+				return firstDifference(av, bv, path+"."+k)
+			}
+		}
+	case []any:
+		bt, ok := b.([]any)
+		if !ok || len(bt) != len(at) {
+			break
+		}
+		for i := range at {
+			x, _ := json.Marshal(at[i])
+			y, _ := json.Marshal(bt[i])
+			if string(x) != string(y) {
+				return firstDifference(at[i], bt[i], fmt.Sprintf("%s[%d]", path, i))
+			}
+		}
+	}
+	return fmt.Sprintf("%s = %s where the other has %s", path, short(a), short(b))
+}
+
+// uuidsIn: every text stored under a member named uuid, anywhere below v
+func uuidsIn(v any, out map[string]bool) {
+	switch t := v.(type) {
+	case map[string]any:
+		for k, x := range t {
+			if k == "uuid" {
+				if s, ok := x.(string); ok {
+					out[s] = true
+				}
+			}
+			uuidsIn(x, out)
+		}
+	case []any:
+		for _, x := range t {
+			uuidsIn(x, out)
+		}
+	}
+}
+
+// orphanedTranslations: item keys of the localization that name nothing in the nodes
+func orphanedTranslations(def map[string]any) map[string]bool {
+	have := map[string]bool{}
+	uuidsIn(def["nodes"], have)
+	out := map[string]bool{}
+	loc, _ := def["localization"].(map[string]any)
+	for _, lt := range loc {
+		items, _ := lt.(map[string]any)
+		for item, props := range items {
+			if pm, ok := props.(map[string]any); ok && len(pm) == 0 {
+				continue // nothing is translated there
+			}
+			if !have[item] {
+				out[item] = true
+			}
+		}
+	}
+	return out
+}
+
+// checkNoOrphanedTranslations: "keeps ... equivalent": a translation belongs to an item of the flow; a migration may move
+// it to the item that takes the translated member over, it may not leave it attached to nothing.  Translations the
+// source itself had attached to nothing do not count.
+func checkNoOrphanedTranslations(res *hx.Result, src, migrated []byte, srcVersion string, fail func(class, detail string)) {
+	res.OracleChecks++
+	a, e1 := decodeGeneric(src)
+	b, e2 := decodeGeneric(migrated)
+	am, _ := a.(map[string]any)
+	bm, _ := b.(map[string]any)
+	if e1 != nil || e2 != nil || am == nil || bm == nil {
+		return
+	}
+	before := orphanedTranslations(am)
+	var lost []string
+	for item := range orphanedTranslations(bm) {
+		if !before[item] {
+			lost = append(lost, item)
+		}
+	}
+	if len(lost) > 0 {
+		sort.Strings(lost)
+		fail("orphaned-translation:from-"+srcVersion, fmt.Sprintf("after migration %d translated item(s) name no action, category, case or component of the flow (first: %s)", len(lost), lost[0]))
+	}
+}
+
 // checkTemplatePositions: "expression rewrites done by migrations preserve what each template evaluates to", on the
 // definition itself and independent of refactor.Template: the hop 13.2 -> 13.3 keeps the structure, so every text
 // of the nodes and of the localization is paired with its rewritten self; before, @webhook is the payload, after,
